@@ -13,6 +13,12 @@ Workloads: d=2..8, complex/Hermitian/real/density/pure/diagonal matrices, batch 
 float32 and float64 precision, structured corner inputs (basis elements, unit matrices, non-contiguous views, large and
 small magnitudes, requires_grad tensors), and numqi's own callers (manifold SO/SU/Hermitian charts, Choi->Bloch map,
 density-matrix plane/boundary helpers, PureBosonicExt with the Gell-Mann distance, ABk pre-image operators).
+The `basis` shard also runs the numerical regimes ordinary magnitudes do not reach: weakly polarised states (1e-6..1e-10 from the maximally mixed
+state, one exactly mixed item in the batch), nearby states (the squared distance is then also judged RELATIVE to the distance, with the Bloch
+vector of the difference as reference), exact objects up to symmetry-breaking rounding noise (1e-9..1e-15), tiny coefficient vectors with one
+zero item, and the evaluation modes of the torch path (input requires grad / torch.no_grad() / non-leaf input: same value). Consumers in other
+modules (Choi->Bloch map, hf_interpolate_dm, get_density_matrix_plane, the Gell-Mann loss of PureBosonicExt) are judged by value against the
+reference Bloch vectors; copies (copy / deepcopy / pickle) of the cached basis belong to the caller.
 """
 import contextlib
 import importlib.util
@@ -47,6 +53,9 @@ ASSUMPTIONS = [
     'inputs, 2.2e-16 for float64/complex128)',
     'dm_to_gellmann_norm and get_density_matrix_distance2 are judged as Parseval identities: norm of the d^2-1 non-identity '
     'coefficients; distance only when both arguments have equal trace (always true for density matrices)',
+    'the squared distance is additionally judged relative to itself (100*eps*d^2*|v-w|^2 + the identity component of the difference, which is '
+    'rounding noise of the inputs): subtracting the given entries is exact up to one rounding of the difference, so nothing in the inputs forces a '
+    'larger error; the norm of a weakly polarised state keeps the absolute allowance eps*d*max|entry| (the cancellation against tr/d is forced by the input)',
 ]
 TECHNIQUE = 'contracts on all numqi.gellmann functions against a reference basis built from the definition; relational monitors (round trips, batched==per item, torch==numpy); cache-integrity trace check'
 LEVEL_NOTE = ('Basis indices (i,j,d), (d,tensor_n,with_I) enumerated completely for d=2..8; matrices and vectors are sampled. tensor_n=2 bases are '
@@ -57,7 +66,8 @@ DECIDING = ['numqi.gellmann.gellmann_matrix', 'numqi.gellmann.all_gellmann_matri
             'numqi.gellmann.gellmann_basis_to_matrix', 'numqi.gellmann.dm_to_gellmann_basis', 'numqi.gellmann.gellmann_basis_to_dm',
             'numqi.gellmann.dm_to_gellmann_norm', 'numqi.gellmann.get_density_matrix_distance2', 'cache-integrity',
             'relation/batched==per-item', 'relation/torch==numpy', 'relation/layout-independent', 'history/edit-result-then-call-again',
-            'history/work-buffer', 'history/call-order']
+            'history/work-buffer', 'history/call-order', 'distance2/relative-to-the-distance', 'relation/evaluation-mode-independent',
+            'consumer/value-against-reference']
 
 C_TOL = 100.0
 EPS64 = 2.3e-16
@@ -65,7 +75,7 @@ EPS32 = 1.2e-7
 
 
 def shards(tier, seed):
-    ret = [{'name': 'basis'}, {'name': 'corner'}, {'name': 'realistic'}, {'name': 'history'}]
+    ret = [{'name': 'basis'}, {'name': 'corner'}, {'name': 'realistic'}, {'name': 'history'}]  # ('basis' also runs the numerical regimes: it is the lightest shard)
     nrep = 1 if tier == 'quick' else 6
     for backend in ('numpy', 'torch'):
         for prec in ('f64', 'f32'):
@@ -489,8 +499,26 @@ def install(ctx, numqi):
         wit = lambda: {'d': d, 'backend': be, 'dtype': [str(rho.dtype), str(sigma.dtype)], 'rho': a, 'sigma': b}
         got = npy(c.result)
         ctx.check(not np.iscomplexobj(got), f'get_density_matrix_distance2/{be}/real', 'distance is not of a real dtype', {'dtype': str(got.dtype)})
-        M.compare(got.reshape(()), ref, sc * sc, eps, d * d, f'get_density_matrix_distance2/{be}',
-                  'reported squared distance differs from |v-w|^2 of the Bloch vectors', lambda idx: 'value', wit)
+        ok = M.compare(got.reshape(()), ref, sc * sc, eps, d * d, f'get_density_matrix_distance2/{be}',
+                       'reported squared distance differs from |v-w|^2 of the Bloch vectors', lambda idx: 'value', wit)
+        if ok and got.size == 1:
+            # nearby states (|v-w| << |v|): the error allowed above is absolute in the size of the states. The map (rho,sigma) -> |v-w|^2 is
+            # well conditioned RELATIVE to |v-w|^2 (the subtraction of the given entries is exact up to one rounding of the difference), so the
+            # distance is also judged relative to the distance itself; reference: Bloch vector of the difference (linearity of the reference
+            # analysis), computed in float64 from the snapshots. The identity component of the difference (traces equal only up to the rounding
+            # of the inputs) is input noise, not an error of the function: it is added to the allowance.
+            cdiff = rg.analyse(a.astype(np.complex128) - b.astype(np.complex128))
+            ref_noI = float((np.abs(cdiff[:-1])**2).sum())
+            ref_I = float(np.abs(cdiff[-1])**2)
+            allowed = C_TOL * eps * d * d * (ref_noI + ref_I) + ref_I + C_TOL * (eps * sc)**2 * d * d
+            err = abs(float(np.real(got.reshape(()))) - ref_noI)
+            ctx.check(err <= allowed, f'get_density_matrix_distance2/{be}/relative-to-the-distance',
+                      'squared distance of two NEARBY states is wrong relative to the distance itself (digits lost beyond what the inputs force)',
+                      lambda: {**wit(), 'got': float(np.real(got.reshape(()))), 'expected': ref_noI, 'abs_err': err, 'allowed': allowed},
+                      point='distance2/relative-to-the-distance')
+            if ref_noI > 0:
+                wd = ctx.extra['worst_err_over_eps_scale']
+                wd['distance2/relative'] = max(wd.get('distance2/relative', 0.0), err / (eps * d * d * ref_noI + ref_I + 1e-300))
         arg_relations(c, 'get_density_matrix_distance2', be, [rho, sigma], G.get_density_matrix_distance2, C_TOL * eps * d * d * sc * sc, wit)
 
     ctx.attach(G, 'get_density_matrix_distance2', post=post_dist2, pre=pre_snap('rho', 'sigma'), point='numqi.gellmann.get_density_matrix_distance2')
@@ -541,6 +569,13 @@ def rand_matrix(rng, kind, d, batch):
         m = w @ np.swapaxes(w, -1, -2).conj()
         return m / np.trace(m, axis1=-2, axis2=-1)[..., None, None]
     raise ValueError(kind)
+
+
+def unit_traceless_hermitian(rng, d, batch):
+    """traceless Hermitian matrices of Frobenius norm 1 (directions of Bloch vectors)"""
+    h = rand_matrix(rng, 'hermitian', d, batch)
+    h = h - (np.trace(h, axis1=-2, axis2=-1) / d)[..., None, None] * np.eye(d)
+    return h / np.sqrt((np.abs(h)**2).sum(axis=(-2, -1)))[..., None, None]
 
 
 def cast(x, backend, prec, torch):
@@ -630,6 +665,55 @@ def drive_pair(ctx, numqi, rho, sigma, desc):
     ctx.set_case(desc)
     with ctx.guard(f'drive/{backend_of(rho)}/pair'):
         numqi.gellmann.get_density_matrix_distance2(rho, sigma)
+
+
+def drive_torch_modes(ctx, numqi, torch, x, desc):
+    """torch path, evaluation modes: the VALUE of every function must be the same for an input that does / does not require grad, with
+    autograd recording and under torch.no_grad() (relational: numqi with itself; the plain call is judged by the contracts)."""
+    G = numqi.gellmann
+    ctx.set_case(desc)
+    xn = npy(x)
+    d = xn.shape[-1]
+    eps = in_eps(x)
+    sc = max(float(np.abs(xn).max()), 1e-300)
+    herm = bool(np.abs(xn - np.swapaxes(xn, -1, -2).conj()).max() <= 10 * eps * sc)
+    fns = [('matrix_to_gellmann_basis', G.matrix_to_gellmann_basis, lambda t: t),
+           ('gellmann_basis_to_matrix', G.gellmann_basis_to_matrix, lambda t: G.matrix_to_gellmann_basis(t)),
+           ('dm_to_gellmann_basis', G.dm_to_gellmann_basis, lambda t: t),
+           ('dm_to_gellmann_basis(with_rho0)', lambda t: G.dm_to_gellmann_basis(t, with_rho0=True), lambda t: t),
+           ('gellmann_basis_to_dm', G.gellmann_basis_to_dm, lambda t: G.dm_to_gellmann_basis(t))]
+    if xn.ndim == 2 and herm:
+        other = torch.from_numpy(np.ascontiguousarray(np.eye(d) / d).astype(xn.dtype))
+        fns.append(('get_density_matrix_distance2', lambda t: G.get_density_matrix_distance2(t, other), lambda t: t))
+        fns.append(('get_density_matrix_distance2(second-argument)', lambda t: G.get_density_matrix_distance2(other, t), lambda t: t))
+    with ctx.guard('drive/torch/evaluation-modes'):
+        for name, f, prep in fns:
+            with torch.no_grad():
+                with ctx.quiet():
+                    arg = prep(x.detach().clone())
+            arg = arg.detach().clone()
+            plain = f(arg.clone())
+            outs = {}
+            g1 = arg.clone().requires_grad_(True)
+            r1 = f(g1)
+            outs['input-requires-grad'] = r1
+            with torch.no_grad():
+                outs['no_grad'] = f(arg.clone())
+                outs['no_grad+input-requires-grad'] = f(arg.clone().requires_grad_(True))
+            with torch.enable_grad():
+                outs['non-leaf-input-of-a-graph'] = f(arg.clone().requires_grad_(True) * 1.0)
+            tol = 10 * eps * d * (sc * sc if name.startswith('get_density') else max(sc, 1.0 if name == 'gellmann_basis_to_dm' else sc))
+            for mode, r in outs.items():
+                rel_close(ctx, r, plain, 1.0, tol, f'relation/evaluation-mode-changes-value/{name}/{mode}',
+                          f'{name}: the value differs between a plain tensor input and the mode "{mode}"', {'d': d, 'dtype': str(xn.dtype), 'batch': list(xn.shape[:-2])},
+                          'relation/evaluation-mode-independent')
+            # (the statement does not speak about gradients: only that backward() through the call does not raise inside numqi.gellmann)
+            if getattr(r1, 'requires_grad', False):
+                try:
+                    (r1.real if r1.is_complex() else r1).sum().backward()
+                except RuntimeError as e:
+                    ctx.check(False, f'relation/evaluation-mode/{name}/backward-raises', f'{name}: backward() through the call raised: {str(e)[:150]}',
+                              {'d': d, 'dtype': str(xn.dtype)}, point='relation/evaluation-mode-independent')
 
 
 BATCHES = [(), (1,), (3,), (2, 3)]
@@ -742,6 +826,9 @@ def run_corner(ctx, numqi, torch):
                     # integer-dtype matrices and coefficient vectors (accepted by the numpy path), sliced views
                     drive_matrix(ctx, numqi, torch, rng.integers(-5, 6, size=(d, d)), {'op': 'int64-matrix', 'd': d})
                     drive_matrix(ctx, numqi, torch, rng.integers(-5, 6, size=(2, d, d)).astype(np.int32), {'op': 'int32-matrix-batch', 'd': d})
+                    # integer entries around 2^53 (the sums the closed forms take stay inside int64; the float64 conversion is the only rounding)
+                    drive_matrix(ctx, numqi, torch, rng.integers(2**53 - 5, 2**53 + 6, size=(d, d)), {'op': 'int64-matrix-near-2^53', 'd': d})
+                    drive_vector(ctx, numqi, torch, rng.integers(2**53 - 5, 2**53 + 6, size=(d * d,)), {'op': 'int64-vector-near-2^53', 'd': d})
                     drive_vector(ctx, numqi, torch, rng.integers(-5, 6, size=(d * d,)), {'op': 'int64-vector', 'd': d})
                     wide = np.zeros((d + 2, d + 3), dtype=np.complex128)
                     wide[1:-1, 2:-1] = rand_matrix(rng, 'complex', d, ())
@@ -766,6 +853,58 @@ def run_corner(ctx, numqi, torch):
         dm = rand_matrix(rng, 'dm', d, ())
         drive_pair(ctx, numqi, torch.from_numpy(dm.astype(np.complex64)), torch.from_numpy(rand_matrix(rng, 'dm', d, ())), {'op': 'mixed-precision-distance', 'd': d})
         drive_pair(ctx, numqi, dm.astype(np.complex64), rand_matrix(rng, 'dm', d, ()), {'op': 'mixed-precision-distance-numpy', 'd': d})
+
+
+def run_regimes(ctx, numqi, torch):
+    """numerical regimes the ordinary magnitudes do not reach, and the evaluation modes of the torch path"""
+    rng = ctx.rng
+    ctx.workload('corner')
+    for d in range(2, 9):
+        for backend in ('numpy', 'torch'):
+            for prec in ('f64', 'f32'):
+                # numerical regimes: weakly polarised states (distance 1e-6..1e-10 from the maximally mixed state, ONE exactly mixed item in the
+                # batch), exact objects up to rounding noise that does not respect their symmetry (1e-9..1e-15), a batch with one zero item,
+                # magnitudes 1e-9 / 1e-15
+                mmx = np.eye(d) / d
+                h3 = unit_traceless_hermitian(rng, d, (3,))
+                herm = rand_matrix(rng, 'hermitian', d, ())
+                dm0 = rand_matrix(rng, 'dm', d, ())
+                noise = lambda lvl: lvl * rand_matrix(rng, 'complex', d, ())
+                one_zero = rand_matrix(rng, 'complex', d, (3,))
+                one_zero[1] = 0
+                specials = {
+                    'near-maximally-mixed-batch(1e-6,exact,1e-10)': mmx + np.array([1e-6, 0.0, 1e-10]).reshape(3, 1, 1) * h3,
+                    'near-maximally-mixed-1e-8': mmx + 1e-8 * h3[0],
+                    'hermitian+noise-1e-9': herm + noise(1e-9), 'hermitian+noise-1e-12': herm + noise(1e-12), 'hermitian+noise-1e-15': herm + noise(1e-15),
+                    'dm+noise-1e-12': dm0 + noise(1e-12), 'identity+noise-1e-12': np.eye(d) + noise(1e-12),
+                    'basis-element+noise-1e-12': np.array(rg.basis(d)[int(rng.integers(d * d))]) + noise(1e-12),
+                    'diagonal+noise-1e-12': rand_matrix(rng, 'diagonal', d, ()) + noise(1e-12),
+                    'batch-with-one-zero-item': one_zero,
+                    'tiny-1e-9': rand_matrix(rng, 'complex', d, ()) * 1e-9, 'tiny-1e-15-hermitian': rand_matrix(rng, 'hermitian', d, ()) * 1e-15,
+                }
+                for name, x in specials.items():
+                    drive_matrix(ctx, numqi, torch, cast(x, backend, prec, torch), {'op': 'regime', 'name': name, 'd': d, 'backend': backend, 'prec': prec})
+                # Bloch / coefficient vectors of tiny length (1e-6..1e-12) with ONE zero item in the batch, and a batch of mixed magnitudes
+                tv = rng.normal(size=(4, d * d)) * np.array([1e-6, 0.0, 1e-9, 1e-12]).reshape(4, 1)
+                drive_vector(ctx, numqi, torch, cast(tv, backend, prec, torch), {'op': 'tiny-vector-batch-with-one-zero-item', 'd': d, 'backend': backend, 'prec': prec})
+                tvc = (rng.normal(size=(3, d * d)) + 1j * rng.normal(size=(3, d * d))) * np.array([1e-9, 1.0, 1e6]).reshape(3, 1)
+                drive_vector(ctx, numqi, torch, cast(tvc, backend, prec, torch), {'op': 'mixed-magnitude-complex-vector-batch', 'd': d, 'backend': backend, 'prec': prec})
+                # nearby states: both at distance e from the maximally mixed state (|v-w|^2 ~ e^2), and such a state against the mixed state itself
+                for e in (1e-6, 1e-8, 1e-10):
+                    hh = unit_traceless_hermitian(rng, d, (2,))
+                    r1, r2 = cast(mmx + e * hh[0], backend, prec, torch), cast(mmx + e * hh[1], backend, prec, torch)
+                    drive_pair(ctx, numqi, r1, r2, {'op': 'distance-nearby-states', 'd': d, 'backend': backend, 'prec': prec, 'distance_from_mixed': e})
+                    drive_pair(ctx, numqi, r1, cast(mmx.astype(np.complex128), backend, prec, torch),
+                               {'op': 'distance-to-the-mixed-state', 'd': d, 'backend': backend, 'prec': prec, 'distance_from_mixed': e})
+                    dmr = rand_matrix(rng, 'dm', d, ())
+                    hp = dmr + e * hh[0]
+                    drive_pair(ctx, numqi, cast(dmr, backend, prec, torch), cast(hp, backend, prec, torch),
+                               {'op': 'distance-state-vs-perturbed-state', 'd': d, 'backend': backend, 'prec': prec, 'perturbation': e})
+                if backend == 'torch':
+                    drive_torch_modes(ctx, numqi, torch, cast(rand_matrix(rng, 'complex', d, (2,)), backend, prec, torch),
+                                      {'op': 'evaluation-modes', 'kind': 'complex-batch', 'd': d, 'prec': prec})
+                    drive_torch_modes(ctx, numqi, torch, cast(rand_matrix(rng, 'dm', d, ()), backend, prec, torch),
+                                      {'op': 'evaluation-modes', 'kind': 'dm', 'd': d, 'prec': prec})
 
 
 @contextlib.contextmanager
@@ -842,6 +981,70 @@ def run_realistic(ctx, numqi, torch):
                 kop = numqi.random.rand_kraus_op(3, din, dout, seed=int(rng.integers(2**31)))
                 choi = numqi.channel.kraus_op_to_choi_op(kop)
                 numqi.channel.choi_op_to_bloch_map(choi.reshape(din, dout, din, dout))
+        # consumers of the coordinates in other modules, judged by VALUE against the reference Bloch vectors (relational: what the consumer
+        # documents about Bloch vectors must hold with the reference analysis / synthesis)
+        for din, dout in [(2, 2), (2, 3), (3, 2), (3, 3), (4, 2)] + ([(2, 5), (4, 4), (5, 3)] if big else []):
+            ctx.set_case({'op': 'choi_op_to_bloch_map/value', 'din': din, 'dout': dout})
+            with driver(ctx, 'consumer/choi_op_to_bloch_map'):
+                nk = int(rng.integers(2, 4))  # (nk*dout >= din: a trace-preserving map exists)
+                K = rng.normal(size=(nk, dout, din)) + 1j * rng.normal(size=(nk, dout, din))
+                gram = np.einsum('kai,kaj->ij', K.conj(), K)  # sum_k K^dagger K: made the identity below (trace preserving)
+                w, V = np.linalg.eigh(gram)
+                K = K @ (V / np.sqrt(w)) @ V.conj().T
+                choi = np.einsum('kai,kbj->iajb', K, K.conj())  # op[i,a,j,b] = channel(|i><j|)[a,b]
+                matA, vecb = numqi.channel.choi_op_to_bloch_map(choi)
+                ok = np.shape(matA) == (dout * dout - 1, din * din - 1) and np.shape(vecb) == (dout * dout - 1,)
+                ctx.check(ok, 'consumer/choi_op_to_bloch_map/shape', 'Bloch map (A,b) of a channel has the wrong shapes', {'A': np.shape(matA), 'b': np.shape(vecb)},
+                          point='consumer/value-against-reference')
+                if ok:
+                    worst = 0.0
+                    for _ in range(3):
+                        rho = rand_matrix(rng, 'dm', din, ())
+                        out = np.einsum('kai,ij,kbj->ab', K, rho, K.conj())
+                        worst = max(worst, float(np.abs(matA @ rg.bloch(rho) + vecb - rg.bloch(out)).max()))
+                    ctx.check(worst <= 1e-12, 'consumer/choi_op_to_bloch_map/bloch-vector-of-the-output-state',
+                              'A v + b (Bloch map from the Choi operator) is not the reference Bloch vector of the channel output for the state with reference Bloch vector v',
+                              {'din': din, 'dout': dout, 'max_abs_err': worst}, point='consumer/value-against-reference')
+        for d in (2, 3, 4, 5) + ((6, 8) if big else ()):
+            ctx.set_case({'op': 'dm-plane-and-interpolation/value', 'd': d})
+            with driver(ctx, 'consumer/dm-helpers'):
+                rho, sig = rand_matrix(rng, 'dm', d, ()), rand_matrix(rng, 'dm', d, ())
+                v0, v1 = rg.bloch(rho), rg.bloch(sig)
+                e0 = v0 / np.linalg.norm(v0)
+                e1 = v1 - (e0 @ v1) * e0
+                e1 = e1 / np.linalg.norm(e1)
+                for beta in (0.05, 1e-7, float(np.linalg.norm(v0))):
+                    got = np.asarray(numqi.entangle.hf_interpolate_dm(rho, beta=beta))
+                    ctx.check(got.shape == (d, d) and float(np.abs(got - rg.bloch_to_dm(beta * e0)).max()) <= 1e-13 * max(1.0, beta / np.linalg.norm(v0)),
+                              'consumer/hf_interpolate_dm/bloch-vector-length', 'hf_interpolate_dm(rho, beta) is not the state whose reference Bloch vector is beta*unit(v(rho))',
+                              {'d': d, 'beta': beta}, point='consumer/value-against-reference')
+                theta1, hf0 = numqi.entangle.get_density_matrix_plane(rho, sig)
+                ctx.check(abs(float(theta1) - float(np.arccos(np.clip(v0 @ v1 / (np.linalg.norm(v0) * np.linalg.norm(v1)), -1, 1)))) <= 1e-7,
+                          'consumer/get_density_matrix_plane/angle', 'theta1 is not the angle between the reference Bloch vectors', {'d': d}, point='consumer/value-against-reference')
+                worst = 0.0
+                for t in (0.0, 0.3, float(theta1), 2.5, -1.0, 7.0):
+                    for nrm in (0.05, 1e-8):
+                        got = np.asarray(hf0(float(t), nrm))
+                        if got.shape != (d, d):
+                            worst = np.inf
+                            continue
+                        # (entries of size 1/d carry an absolute rounding error: allowance 1e-14 absolute + 1e-12 relative to the length)
+                        worst = max(worst, float(np.abs(got - rg.bloch_to_dm(nrm * (np.cos(t) * e0 + np.sin(t) * e1))).max()) / (1e-14 + 1e-12 * nrm))
+                ctx.check(worst <= 1.0, 'consumer/get_density_matrix_plane/state-on-the-plane', 'hf0(theta, norm) is not I/d + norm*(cos(theta) e0 + sin(theta) e1) . G with e0, e1 the '
+                          'orthonormalised reference Bloch vectors of the two operators', {'d': d, 'max_err_over_allowance': worst}, point='consumer/value-against-reference')
+        for dimA, dimB, k in [(2, 2, 2), (2, 3, 2)]:
+            ctx.set_case({'op': 'PureBosonicExt/gellmann-loss-value', 'dimA': dimA, 'dimB': dimB, 'kext': k})
+            with driver(ctx, 'consumer/PureBosonicExt'):
+                model = numqi.entangle.PureBosonicExt(dimA, dimB, kext=k, distance_kind='gellmann')
+                rho = rand_matrix(rng, 'dm', dimA * dimB, ())
+                model.set_dm_target(rho)
+                for mode in ('grad', 'no_grad'):
+                    with (torch.no_grad() if mode == 'no_grad' else contextlib.nullcontext()):
+                        loss = float(model())
+                    want = float(((rg.bloch(rho) - rg.bloch(npy(model.dm_torch)))**2).sum())
+                    ctx.check(abs(loss - want) <= 1e-12, f'consumer/PureBosonicExt/gellmann-loss!=bloch-distance/{mode}',
+                              'the loss of PureBosonicExt(distance_kind=gellmann) is not |v(target)-v(rho_AB)|^2 of the reference Bloch vectors',
+                              {'dimA': dimA, 'dimB': dimB, 'kext': k, 'loss': loss, 'expected': want}, point='consumer/value-against-reference')
         # density matrix helpers
         for d in (2, 3, 4, 6) + ((5, 8) if big else ()):
             ctx.set_case({'op': 'dm-helpers', 'd': d})
@@ -1034,6 +1237,25 @@ def run_history(ctx, numqi, torch):
             edit_result_then_call_again(ctx, 'get_density_matrix_distance2', lambda: G.get_density_matrix_distance2(cv(dm), cv(dmb[0])))
         edit_result_then_call_again(ctx, 'dm_to_gellmann_norm', lambda: G.dm_to_gellmann_norm(np.array(dmb)))
 
+    # ---------------- (1a') object lifecycle of the cached basis: a copy.copy / copy.deepcopy / pickle round trip of the returned array belongs to the
+    # caller (editable, no memory shared with the cache); the original is still the basis after the copy was edited (contract on the next call)
+    import copy
+    import pickle
+    for d in (2, 3, 5):
+        for how, mk in [('copy.deepcopy', copy.deepcopy), ('copy.copy', copy.copy), ('pickle', lambda x: pickle.loads(pickle.dumps(x)))]:
+            ctx.set_case({'op': 'history/copy-of-the-cached-basis', 'd': d, 'how': how})
+            with ctx.guard('history/all_gellmann_matrix/copy'):
+                b0 = G.all_gellmann_matrix(d)
+                cp = mk(b0)
+                shares = bool(np.shares_memory(cp, b0))
+                if cp.flags.writeable and not shares:
+                    cp *= 3
+                    cp += 1
+                b1 = G.all_gellmann_matrix(d)  # judged by the contract
+                ctx.check(isinstance(b1, np.ndarray) and b1.shape == rg.basis(d).shape and float(np.abs(b1 - rg.basis(d)).max()) <= 1e-13 and not (shares and cp.flags.writeable),
+                          f'all_gellmann_matrix/stale-after-editing-a-{how}', f'after a {how} of the returned basis was edited in place, the next call no longer returns the basis '
+                          '(or the copy is a writable alias of the cache)', {'d': d, 'shares_memory': shares}, point='history/edit-result-then-call-again')
+
     # ---------------- (1b) work buffers: one argument object refilled in place between calls
     for d in (2, 3, 5):
         mfill = [lambda b: b.__setitem__(Ellipsis, randc(*b.shape)) for _ in range(3)] + [lambda b: b.__imul__(2)]
@@ -1119,6 +1341,7 @@ def run(ctx, shard):
     name = shard['name']
     if name == 'basis':
         run_basis(ctx, numqi, torch)
+        run_regimes(ctx, numqi, torch)
     elif name == 'corner':
         run_corner(ctx, numqi, torch)
     elif name == 'realistic':
